@@ -370,6 +370,16 @@ func (env *rEnv) call(n *rNode) Value {
 			}
 			return env.fail("no call to %s on this path", n.Args[0].Text)
 		}
+	case "callbackarg":
+		// callbackarg(i): i-th argument of the most recent client callback invocation
+		if idx, ok := constIndex(env.eval(n.Args[0])); ok {
+			for i := len(env.post.trace) - 1; i >= 0; i-- {
+				if ev := env.post.trace[i]; ev.Kind == "callback" && idx < len(ev.Args) {
+					return ev.Args[idx]
+				}
+			}
+		}
+		return env.fail("no callback argument on this path")
 	case "cbret":
 		// cbret(i): i-th result of the most recent client callback invocation
 		if idx, ok := constIndex(env.eval(n.Args[0])); ok {
@@ -748,6 +758,8 @@ func (env *rEnv) call(n *rNode) Value {
 	case "listnil":
 		v := env.eval(n.Args[0])
 		return sym(e.isNilTerm(env.st(), v))
+	case "collid":
+		return sym(App(SInt, "collid", argT(0), argT(1)))
 	case "b2i":
 		return sym(Ite(argT(0), IntLit(1), IntLit(0)))
 	case "looksjson":
